@@ -27,6 +27,8 @@ class Scene:
         self.ctx, self.sb, self.provider = ctx, sb, provider
         H = runs.History(ctx, sb, rng, "C05", 3, 3)
         H.w.populate(nfiles=4)
+        # (a tree without regular files makes the upload's verification complain - finding F10, C13's subject)
+        H.w.write_file(os.path.join(H.w.src, H.w.items[0], "keeper"), b"k" * 300)
         H.now = runs.BASE + 3600
         H.advance = lambda: None
         for i in range(2):
